@@ -68,6 +68,39 @@ def rule_as_poll(ctx, cfg, F):
                       f.path, f.loc(0), config=cfg)
         else:
             R.ok("every path polls the forwarding channel with the caller's context", f.loc(good[0]), cfg)
+        # the consumer side does not shut the forwarding queue: after close() the routing thread's sends fail silently and every later message is discarded
+        closes = [b for b, t in f.calls() if strip_generics(callee_name(t)).endswith("UnboundedReceiver::close") or strip_generics(t.get("callee") or "").endswith("::close")]
+        if closes:
+            R.violate("%s:forwarding-queue-closed-by-poll" % strip_generics(f.path), "poll_next closes the forwarding queue: the stream then ends although senders are alive, and their messages are dropped by the routing thread",
+                      f.path, f.loc(closes[0]), config=cfg)
+        # Pending is only ever passed on, never made up: when the forwarding channel said Ready it registered no waker, so answering Pending for that
+        # poll (a message that was skipped, an error that was swallowed) parks the task for good
+        for b in sorted(f.live_blocks()):
+            if f.is_cleanup(b):
+                continue
+            for si, st in enumerate(f.stmts(b)):
+                if st["s"] != "assign" or st["lhs"]["l"] != 0 or st["lhs"].get("p"):
+                    continue
+                rv = st["rv"]
+                made = (rv["r"] == "agg" and str(rv["kind"].get("adt", "")).endswith("task::Poll") and rv["kind"].get("variant") == "Pending") or \
+                       (rv["r"] == "use" and rv["a"][0].get("k") == "c" and rv["a"][0].get("pvariant") == "Pending")
+                if not made:
+                    continue
+                passed_on = False
+                for s_ in f.live_blocks():
+                    if f.term(s_)["t"] != "switch" or not f.dominates(s_, b):
+                        continue
+                    for tgt in f.succ(s_):
+                        if not (tgt == b or f.dominates(tgt, b)):
+                            continue
+                        for lab in edge_label(f, s_, tgt):
+                            if lab["kind"] in ("variant", "variant_not") and lab.get("variant") == "Pending" and any(r.kind == "call" and r.block in inner for r in tr.roots_of_place(lab["place"])):
+                                passed_on = True
+                if passed_on:
+                    R.ok("Pending is returned where the forwarding channel returned Pending", f.loc(b, si), cfg)
+                else:
+                    R.violate("%s:pending-made-up" % strip_generics(f.path), "poll_next answers Pending on a path where the forwarding channel did not: no waker was registered for this poll, so the task is never polled "
+                              "again and every later message stays in the stream's queue", f.path, f.loc(b, si), config=cfg)
     R.count("poll_fns[%s]" % cfg, n)
 
 
